@@ -30,6 +30,7 @@ def frame(n):
     })
     df["yu"] = pd.Categorical(df["ys"], categories=["mid", "high", "low"])  # unordered: sorted order applies
     df["yo"] = pd.Categorical(df["ys"], categories=["low", "mid", "high"], ordered=True)  # declared order applies
+    df["yo2"] = pd.Categorical(df["ys"], categories=["top", "low", "mid", "none", "high"], ordered=True)  # two declared levels never occur
     return df
 
 
@@ -40,6 +41,8 @@ for col, order in (("ys", "sorted"), ("yu", "sorted"), ("yo", "declared")):
         RESP.append({"text": f"{col}[{lvl}]", "kind": "level", "col": col, "level": lvl})
         RESP.append({"text": f"{col}['{lvl}']", "kind": "level", "col": col, "level": lvl})
 RESP.append({"text": "yq", "kind": "cat", "col": "yq", "order": "sorted"})
+RESP.append({"text": "yo2", "kind": "cat", "col": "yo2", "order": "declared"})
+RESP.append({"text": "yo2[mid]", "kind": "level", "col": "yo2", "level": "mid"})
 for lvl in ("level one", "b two", "a-3"):
     RESP.append({"text": f"yq['{lvl}']", "kind": "level", "col": "yq", "level": lvl})
     RESP.append({"text": f'yq["{lvl}"]', "kind": "level", "col": "yq", "level": lvl})
